@@ -8,7 +8,7 @@
    where the encoder excludes them. *)
 From Coq Require Import ZArith List Bool.
 From ADV Require Import C18.Model C18.Spec C18.SpecTest C18.ProofsBase C18.ProofsScalar C18.ProofsSparse
-  C18.ProofsDense C18.ProofsSparseMat C18.ProofsInst C18.TableModel C18.ProofsTable C18.ConfigModel C18.ProofsConfig.
+  C18.ProofsDense C18.ProofsSparseMat C18.ProofsInst C18.TableModel C18.ProofsTable C18.ProofsTable2 C18.ConfigModel C18.ProofsConfig C18.ProofsConfig2.
 Import ListNotations.
 Open Scope Z_scope.
 
@@ -135,24 +135,18 @@ Theorem dense_repack_total :
   forall E ezero (m : dmat E), wf_dm m -> exists vals, packed E ezero m = Ok vals.
 Proof. exact packed_total. Qed.
 
-(* reader safety (d37b260), every document: no panic (given an element reader that does not panic); an accepted
-   document has non-negative dimensions and is well-formed EXACTLY when Rows*Cols did not wrap around *)
+(* reader safety at full strength (d37b260, 6dfd87a), every document: no panic (given an element reader that does
+   not panic); an accepted document gives a well-formed matrix of the document's dimensions *)
 Theorem dense_reader_safety :
   forall E D (rd : D -> res E) b d, (forall x, no_panic (rd x)) ->
   no_panic (read_dm E D rd b d) /\
   forall m, read_dm E D rd b d = Ok m ->
-    dm_rows m = dmd_rows d /\ dm_cols m = dmd_cols d /\ 0 <= dm_rows m /\ 0 <= dm_cols m /\
-    zlen (dm_vals m) = zlen (dmd_values d) /\ zlen (dm_vals m) = wrap64 (dmd_rows d * dmd_cols d) /\
-    (wf_dm m <-> dmd_rows d * dmd_cols d < 2^63).
+    wf_dm m /\ dm_rows m = dmd_rows d /\ dm_cols m = dmd_cols d /\ zlen (dm_vals m) = zlen (dmd_values d).
 Proof. intros E D rd b d Hrd. split; [apply read_dm_total; exact Hrd|intros m; apply read_dm_safe]. Qed.
-
-(* STILL A DEFECT (F-JSON-DENSE-OVERFLOW): Rows = Cols = 2^32, Values = [] is accepted *)
-Theorem dense_reader_overflow_refuted :
-  exists d m, Zrdm d = Ok m /\ ~ wf_dm m /\ dm_rows m = 2^32 /\ dm_at Z m 0 0 = Panic.
-Proof. exact dense_reader_overflow_refuted'. Qed.
 
 Theorem dense_reader_regression :
   Zrdm (mkDmDoc [] 1 1) = Err /\ Zrdm (mkDmDoc [1; 2; 3] 2 2) = Err /\ Zrdm (mkDmDoc [] (-1) 0) = Err /\
+  Zrdm (mkDmDoc [] (2^32) (2^32)) = Err /\ Zrdm (mkDmDoc [1; 2] 6148914691236517206 3) = Err /\
   read_dm Z Z (read_plain Z Z Zparse) true (mkDmDoc [] (-1) 0) = Err /\
   read_dm Z Z (read_plain Z Z Zparse) true (mkDmDoc [] 0 (-1)) = Err /\
   Zrdm (mkDmDoc [1; 2] 1 2) = Ok (mkDm [1; 2] 1 2 0 1 0 2 false).
@@ -192,7 +186,7 @@ Theorem dense_real_reader_safety :
      forall v, read_dv (real F) (sdoc T) (read_real F T zero parseJ) d = Ok v -> Forall (wf_real F) v) /\
   (forall d b, no_panic (read_dm (real F) (sdoc T) (read_real F T zero parseJ) b d) /\
      forall m, read_dm (real F) (sdoc T) (read_real F T zero parseJ) b d = Ok m ->
-       Forall (wf_real F) (dm_vals m) /\ (dmd_rows d * dmd_cols d < 2^63 -> wf_dm m)).
+       Forall (wf_real F) (dm_vals m) /\ wf_dm m).
 Proof.
   intros F T zero parseJ. split.
   - intros d. split; [apply read_dv_total, real_reader_total|intros v; apply dense_real_vector_reader_safe].
@@ -227,11 +221,11 @@ Theorem sparse_matrix_reader_safety :
   forall m, read_sm F T nz parseJ d = Ok m -> wf_sm m /\ sm_rows m = smd_rows d /\ sm_cols m = smd_cols d.
 Proof. intros F T nz parseJ d. split; [apply read_sm_total|intros m; apply read_sm_safe]. Qed.
 
-(* the reader's overflow test Rows*Cols/Cols == Rows (wrapping *, truncating /) is exact *)
-Theorem sparse_matrix_overflow_test_exact :
+(* the matrix readers' overflow test Rows*Cols/Cols == Rows (wrapping *, truncating /) is exact *)
+Theorem matrix_overflow_test_exact :
   forall rows cols, 0 <= rows -> 0 <= cols ->
-  (sm_dims_bad rows cols = false <-> wrap64 (rows * cols) = rows * cols).
-Proof. exact sm_overflow_test_exact. Qed.
+  (dims_bad rows cols = false <-> wrap64 (rows * cols) = rows * cols).
+Proof. exact dims_overflow_test_exact. Qed.
 
 Theorem sparse_matrix_reader_regression :
   Zrsm (mkSmDoc [1] [1] 1 1) = Err /\ Zrsm (mkSmDoc [-1] [1] 1 1) = Err /\
@@ -287,11 +281,23 @@ Theorem dense_vector_table_reader :
   exists s, open_table f = Ok s /\ ts_fail s = false /\ mapM parseT (all_fields T (ts_lines s)) = Some v.
 Proof. exact import_dv_reads_all_tokens. Qed.
 
-(* dense matrices, every non-empty view (any wf_dm header: slices, transposes and their compositions,
-   see dense_views_are_wf): dimensions preserved, stored values = the view's elements row by row.
-   PARTIAL: the final positional reading  dm_at m' i j = eval (dm_at m i j)  of that row-major list is
-   not stated (it needs the index lemma  nth (i*cols+j) (concat rows) = nth j (nth i rows)). *)
-Theorem dense_matrix_table_roundtrip_partial :
+(* dense matrices, every non-empty view (any wf_dm header: slices, transposes and their compositions, see
+   dense_views_are_wf) whose cells' printed values read back: the writer produces a file, the reader (plain and
+   Real element types) reads it, and the read-back matrix is well-formed, has the view's dimensions and holds at
+   EVERY position (i, j) the value of the view's element at (i, j) *)
+Theorem dense_matrix_table_roundtrip :
+  forall F T (fmtT : F -> T) parseT E (eval : E -> F) (m : dmat E) p real,
+  text_prefix p -> wf_dm m -> 0 < dm_rows m -> 0 < dm_cols m ->
+  Forall (cell_ok F T fmtT parseT E eval) (dm_vals m) ->
+  exists ls m', export_dm F T fmtT E eval m = Ok ls /\
+    import_dm F T parseT real (plain_file p ls) = Ok m' /\ wf_dm m' /\
+    dm_rows m' = dm_rows m /\ dm_cols m' = dm_cols m /\
+    forall i j, 0 <= i < dm_rows m -> 0 <= j < dm_cols m ->
+      exists e, dm_at E m i j = Ok e /\ dm_at F m' i j = Ok (eval e).
+Proof. exact dm_table_roundtrip_positional. Qed.
+
+(* the same round trip at the level of the stored list: row-major concatenation of the view's rows *)
+Theorem dense_matrix_table_roundtrip_rows :
   forall F T (fmtT : F -> T) parseT E (eval : E -> F) (m : dmat E) ls p real,
   text_prefix p -> wf_dm m -> 0 < dm_rows m -> 0 < dm_cols m ->
   Forall (cell_ok F T fmtT parseT E eval) (dm_vals m) ->
@@ -351,8 +357,18 @@ Theorem sparse_vector_table_reader_refuted :
   (exists v, ZIsv (plain_file [45; 49] [LFields [-1]]) = Ok v /\ ~ wf_sv v).
 Proof. exact sv_table_reader_refuted. Qed.
 
-(* sparse matrices: no universally quantified round-trip theorem yet (model, exact correspondence and
-   the executable example sm_table_example only); what is refuted: *)
+(* sparse matrices, every well-formed WHOLE matrix (not a slice: those are F-TABLE-SPSLICE, refuted below), any stored
+   entries — explicit zeros and null scalars included: written, read back, well-formed, same dimensions, and at every
+   position the same value up to the zeros the format does not carry (hence the same set of non-zero positions) *)
+Theorem sparse_matrix_table_roundtrip :
+  forall F T nz (fmtT : F -> T) parseT fmtI parseI E (eval : E -> F) enul zero,
+  nz zero = false -> (forall z, parseI (fmtI z) = Some z) -> (forall x, parseT (fmtT x) = Some x) ->
+  (forall e, enul e = true -> nz (eval e) = false) ->
+  forall (m : smat E) p, text_prefix p -> wf_sm m -> whole E m -> sm_rows m * sm_cols m < 2^63 ->
+  exists ls m', export_sm F T fmtT fmtI E eval enul m = Ok ls /\
+    import_sm F T nz parseT parseI (plain_file p ls) = Ok m' /\ wf_sm m' /\ sm_obs_eq F zero nz E eval m m'.
+Proof. exact sm_table_roundtrip. Qed.
+
 Theorem sparse_matrix_table_slice_refuted :
   ZEsm spslice_tab = Ok [LFields [2; 2]; LFields [-1; -1; 1]; LFields [1; 1; 2]] /\
   ZIsm (plain_file [50; 32] [LFields [2; 2]; LFields [-1; -1; 1]; LFields [1; 1; 2]]) = Panic.
@@ -386,12 +402,16 @@ Proof. exact ProofsTable.table_small_files. Qed.
 Example table_hypotheses_satisfiable :
   text_prefix [49; 10] /\ text_prefix [10] /\
   Forall (cell_ok Z Z (fun z => z) (int_cell_parse 64) Z (fun z => z)) [1; -5; 2 ^ 53 - 1] /\
-  (exists ls, ZEdm view1 = Ok ls /\ ZIdm false (plain_file [50; 32] ls) = Ok (mkDm [2;3;4; 6;7;8] 2 3 0 2 0 3 false)).
+  (exists ls, ZEdm view1 = Ok ls /\ ZIdm false (plain_file [50; 32] ls) = Ok (mkDm [2;3;4; 6;7;8] 2 3 0 2 0 3 false)) /\
+  (* a whole 2x2 sparse matrix with a stored zero *)
+  wf_sm (mkSm (mkSv [(1, 5); (3, 0)] 4) 2 2 0 2 0 2) /\ whole Z (mkSm (mkSv [(1, 5); (3, 0)] 4) 2 2 0 2 0 2).
 Proof.
   split. { split; [discriminate|]. intros r H. discriminate. }
   split. { split; [discriminate|]. intros r H. discriminate. }
   split. { repeat constructor. }
-  eexists. split; vm_compute; reflexivity.
+  split. { eexists. split; vm_compute; reflexivity. }
+  split; [|repeat split].
+  unfold wf_sm, wf_sv, sorted, keys; simpl. repeat split; try discriminate; repeat constructor; simpl; discriminate || reflexivity.
 Qed.
 
 (* ================================================================== DISTRIBUTION CONFIGURATIONS (round 2)
@@ -434,6 +454,31 @@ Theorem config_mixture_roundtrip :
   imp (expo (Dist FMixture lw ds)) = Ok (Dist FMixture lw ds).
 Proof. intros lw ds Hn Hds. eapply mixture_roundtrip; eassumption. Qed.
 
+(* THE ASSEMBLED ROUND TRIP, by induction over the configuration tree: import (export d) = d for every d generated
+   by  leaf (the 15 plain families + categorical, any stored parameters the importer can build) | log transform d |
+   translation d | mixture of any number of such d (stored log-weights a fixed point of the normalisation), nested to
+   any depth, and — at the top, where the vector registry is consulted — iid copies (integral n) of such a d.
+   The binomial family is not a leaf of rt_dist (config_binomial_excluded): F-CONFIG-BINOMIAL. *)
+Notation rt := (rt_dist F zero one fle flt feq flog ftrunc norm).
+Theorem config_roundtrip_every_nesting : forall d, rt d -> imp (expo d) = Ok d.
+Proof. intros d H. eapply config_tree_roundtrip; eassumption. Qed.
+
+(* the same, stated on the importer's side: whatever ImportConfig builds from ANY configuration document — any nesting,
+   any parameters — is re-imported unchanged from its own export, provided no binomial distribution occurs in it
+   (NewMixture's normalisation and float64(int(x)) idempotent) *)
+Theorem config_importable_roundtrip :
+  (forall l, norm (norm l) = norm l) -> (forall x, ftrunc (ftrunc x) = ftrunc x) ->
+  forall c d, imp c = Ok d -> binomial_free F d = true -> imp (expo d) = Ok d.
+Proof. intros Hn Ht c d H Hb. eapply importable_roundtrip; eassumption. Qed.
+
+Theorem config_binomial_excluded :
+  (forall ps ds, ~ rt (Dist FBinomial ps ds)) /\
+  (forall theta n f c, (f = FLogT \/ f = FTrans \/ f = FIid) -> flt (flog theta) zero = true ->
+     imp (expo (Dist f [c] [Dist FBinomial [flog theta; n] []])) = Err).
+Proof.
+  split; [intros ps ds; apply binomial_not_rt|intros theta n f c Hf H; eapply binomial_poisons_wrappers; eassumption].
+Qed.
+
 (* the binomial distribution: the export carries log(theta), the import reads it as theta *)
 Theorem config_binomial_refuted :
   forall theta n, flt (flog theta) zero = true -> imp (expo (Dist FBinomial [flog theta; n] [])) = Err.
@@ -456,5 +501,15 @@ Example config_hypotheses_satisfiable :
   Z.eqb 1 1 = true /\ Z.eqb 0 1 = false /\
   imp (Cfg FNormal (JArr [JNum 3; JNum 2]) []) = Ok (Dist FNormal [3; 2] []) /\
   imp (expo (Dist FMixture [1; 3] [Dist FNormal [3; 2] []; Dist FLogT [1] [Dist FGamma [2; 5] []]]))
-    = Ok (Dist FMixture [1; 3] [Dist FNormal [3; 2] []; Dist FLogT [1] [Dist FGamma [2; 5] []]]).
-Proof. repeat split; vm_compute; reflexivity. Qed.
+    = Ok (Dist FMixture [1; 3] [Dist FNormal [3; 2] []; Dist FLogT [1] [Dist FGamma [2; 5] []]]) /\
+  (* a three-level tree inside the theorem: iid over a mixture of a leaf and a transformed leaf *)
+  rt_dist Z 0 1 Z.leb Z.ltb Z.eqb (fun z => z) (fun z => z) (fun l => l)
+    (Dist FIid [2] [Dist FMixture [1; 3] [Dist FNormal [3; 2] []; Dist FLogT [1] [Dist FGamma [2; 5] []]]]).
+Proof.
+  split; [reflexivity|]. split; [reflexivity|]. split; [vm_compute; reflexivity|]. split; [vm_compute; reflexivity|].
+  apply RtIid; [reflexivity|]. apply RtMix; [reflexivity|].
+  constructor.
+  - apply RtLeaf; [left; reflexivity|]. exists [3; 2]. reflexivity.
+  - constructor; [|constructor]. apply RtWrap; [left; reflexivity|].
+    apply RtLeaf; [left; reflexivity|]. exists [2; 5]. reflexivity.
+Qed.
